@@ -680,6 +680,19 @@ func newColumn(t *TNode) (proto.Column, error) {
 				return &proto.ColFixedStr{Size: t.W}, nil
 			}
 		}
+		if strings.HasPrefix(t.CH, "Decimal(") {
+			// the width comes from the harness' own reading of the precision, not from the library's inference
+			switch t.W {
+			case 4:
+				return proto.Alias(new(proto.ColDecimal32), proto.ColumnType(t.CH)), nil
+			case 8:
+				return proto.Alias(new(proto.ColDecimal64), proto.ColumnType(t.CH)), nil
+			case 16:
+				return proto.Alias(new(proto.ColDecimal128), proto.ColumnType(t.CH)), nil
+			case 32:
+				return proto.Alias(new(proto.ColDecimal256), proto.ColumnType(t.CH)), nil
+			}
+		}
 	case "point":
 		return new(proto.ColPoint), nil
 	}
